@@ -15,7 +15,9 @@ for pid in pids:
         if e['id'] in fixed:
             n['status'] = 'fixed'; n['commit'] = fixed[e['id']]
             n['line'] = 'fixed: property=%s %s %s' % (e['property'], fixed[e['id']], e['what'][:200])
-        if e['id'] in have: have[e['id']].update(n)
+        if e['id'] in have:
+            if have[e['id']].get('status') == 'fixed' and n['status'] != 'fixed': n.pop('status')   # a fixed entry stays fixed
+            have[e['id']].update(n)
         else: kf['findings'].append(n); have[e['id']] = n
 json.dump(kf, open(os.path.join(HERE, 'known_findings.json'), 'w'), indent=1)
 print(len(kf['findings']), 'findings;', sum(1 for e in kf['findings'] if e['status'] == 'open'), 'open')
